@@ -74,7 +74,8 @@ def run_static(harness, model, env, cases, wd, tag):
             continue
         path = os.path.join(wd, f"{tag}.model.{i}.cases")
         C.write_lines(path, [f"E {envs}"] + part)
-        procs.append(subprocess.Popen([model, "codec", path], stdout=subprocess.PIPE, stderr=subprocess.PIPE, text=True))
+        procs.append(subprocess.Popen([model, "codec", path], stdout=subprocess.PIPE, stderr=subprocess.PIPE, text=True,
+                                      preexec_fn=C.model_stack(model)))
     mod = []
     for p in procs:
         o, e = p.communicate(timeout=3000)
@@ -122,7 +123,8 @@ def run_static_single(harness, model, env, cases, wd, tag):
             continue
         mp = os.path.join(wd, f"{tag}.model.{i}.cases")
         C.write_lines(mp, [f"E {envs}"] + part)
-        procs.append(subprocess.Popen([model, "codec", mp], stdout=subprocess.PIPE, stderr=subprocess.PIPE, text=True))
+        procs.append(subprocess.Popen([model, "codec", mp], stdout=subprocess.PIPE, stderr=subprocess.PIPE, text=True,
+                                      preexec_fn=C.model_stack(model)))
     for p in procs:
         o, e = p.communicate(timeout=3000)
         if p.returncode != 0:
